@@ -5,7 +5,7 @@
 Require Extraction.
 Require Import ExtrOcamlBasic.
 From Coq Require Import List NArith ZArith.
-From SDB Require Import Base.Bytes Base.Assoc Params Model.Codec Model.Lock Model.Page Model.Pool Model.SqlRef Model.Catalog Model.Query Model.Wal Model.LogCodec Model.WalTrace Model.Sched Model.ReqMgr Model.Engine Model.IndexWrap Model.Trace.
+From SDB Require Import Base.Bytes Base.Assoc Params Model.Codec Model.Lock Model.Page Model.Pool Model.SqlRef Model.Catalog Model.Query Model.Wal Model.LogCodec Model.WalTrace Model.Sched Model.ReqMgr Model.Engine Model.IndexWrap Model.Trace Model.Join.
 
 Extraction Blacklist List String Int.
 
@@ -43,4 +43,6 @@ Extraction "sdbmodel.ml"
   om_empty om_sortedb ixi_insert ixi_delete ixi_update ixi_scan_key ixi_range
   ixf_insert ixf_delete ixf_update ixf_scan_key ixf_range ixs_insert ixs_delete ixs_update ixs_scan_key ixs_range
   well_formed disciplined guard_of
+  (* M7j join planning (C11) *)
+  join_candidates run_join run_join_select scan_candidates inner jcols jshape_of leaf_order algs has_null_key has_neg_zero_key join_hyps_ok
   N.of_nat N.to_nat Z.of_N Z.to_N Z.compare N.compare.
